@@ -481,7 +481,7 @@ func (s *session) writeMemory(line string) {
 		s.w("Building configuration...\r\n[OK]\r\n%s", s.prompt())
 	case "too-large", "no-ok":
 		s.event(line, "save", "rejected:too-large")
-		s.w("Building configuration...\r\n% Configuration buffer full, can't add command\r\n%s", s.prompt())
+		s.w("Building configuration...\r\n%% Configuration buffer full, can't add command\r\n%s", s.prompt())
 	}
 	if s.spec.WriteMem == "" || s.spec.WriteMem == "ok" || s.spec.WriteMem == "nvram-confirm" || s.busyDone {
 		s.modified = false
